@@ -173,9 +173,10 @@ def gen(rng, knobs=None):
             ps = m["procs"]
             for a, b in zip(ps, ps[1:] + ps[:1]):
                 a["calls"].append(b["name"])
-        # internal procedures
+        # internal procedures (strict: not in a procedure that opted out of graphs, whose internal
+        # procedures are documented on its page and left to the implementation)
         for p in m["procs"]:
-            if rng.random() < 0.3:
+            if rng.random() < 0.35 and not (strict and "graph: false" in p["meta"]):
                 for q in range(rng.choice([1, 2])):
                     ip = dict(name=f"{p['name']}_in{q}", calls=[c for c in cands if rng.random() < 0.25],
                               meta=["graph: false"] if rng.random() < 0.12 else [])
@@ -184,6 +185,10 @@ def gen(rng, knobs=None):
                     if p["internals"] and rng.random() < 0.5:
                         ip["calls"].append(p["internals"][0]["name"])
                     p["internals"].append(ip)
+                # per-entity proc_internals: switches the documentation of the internal procedures on or
+                # off for this procedure, whatever the project-level option says
+                if not any(x.startswith("proc_internals") for x in p["meta"]) and rng.random() < 0.5:
+                    p["meta"].append("proc_internals: " + rng.choice(["true", "false"]))
             if rng.random() < 0.15 and m["uses"]:
                 p["uses"].append(rng.choice(m["uses"]))
             if rng.random() < 0.1:
@@ -201,6 +206,8 @@ def gen(rng, knobs=None):
             if not strict and rng.random() < 0.15:
                 t["deferred"] = [(f"{t['name']}_d", f"absif{i}")]
                 m["absif"] = (f"absif{i}", t["name"])
+            if strict and "graph: false" in t["meta"]:
+                continue
             if len(t["bound"]) >= 2 and rng.random() < 0.6:
                 t["generics"].append((f"{t['name']}_g", [b for b, _ in t["bound"][:2]]))
             elif len(t["bound"]) >= 1 and rng.random() < 0.3:
@@ -271,11 +278,13 @@ def gen(rng, knobs=None):
             xp["calls"].append("xp0")
         if rng.random() < 0.3:
             xp["calls"].append(xp["name"])
-        if rng.random() < 0.3:
+        if rng.random() < 0.35 and not (strict and "graph: false" in xp["meta"]):
             ip = dict(name=f"xp{q}_in", calls=[c for c in acc if rng.random() < 0.4])
             xp["internals"].append(ip)
-            if rng.random() < 0.7:
+            if rng.random() < 0.6:
                 xp["calls"].append(ip["name"])
+            if rng.random() < 0.5:
+                xp["meta"].append("proc_internals: " + rng.choice(["true", "false"]))
         units.append(xp)
     if rng.random() < 0.12:
         units.append(dict(kind="blockdata", name="bd0", uses=[f"m{rng.randrange(nm)}"], meta=[]))
@@ -290,7 +299,7 @@ def gen(rng, knobs=None):
 
 
 # ------------------------------------------------------------------ the relation the source declares
-def declared(proj):
+def declared(proj, st=None):
     """For a strict project: the relation written in the generated text, independent of FORD.
     Returns (rel, nograph): rel maps an entity key to its raw relations
        uses / anc / comps / calls / bindings / modprocs / modimpl / deps
@@ -304,6 +313,16 @@ def declared(proj):
     type itself.  A file depends on the files defining the modules its units (and their procedures) use
     and on the file of a submodule's parent."""
     assert proj["strict"]
+    st = st or {}
+    display = [d.lower() for d in st.get("display", ["public", "protected"])]
+    project_pi = bool(st.get("proc_internals", False))
+
+    def eff_pi(meta):
+        for x in meta:
+            if x.startswith("proc_internals:"):
+                return x.split(":")[1].strip() == "true"
+        return project_pi
+    call_roots = set()      # entities the project-wide call graph must expand besides the registered procedures
     units = [u for f in proj["files"] for u in f]
     mods = {u["name"]: u for u in units if u["kind"] == "module"}
     subs = {u["name"]: u for u in units if u["kind"] == "submodule"}
@@ -365,6 +384,9 @@ def declared(proj):
                 ent(("bound", b, t["name"]))["bindings"] = [("proc", pn)]
             for g, bs in t["generics"]:
                 ent(("bound", g, t["name"]), t.get("gmeta", []))["bindings"] = [("bound", b, t["name"]) for b in bs]
+                # a generic binding of a displayed type that draws graphs is a root of the call graph
+                if ("public" if t["public"] else "private") in display and "graph: false" not in t["meta"]:
+                    call_roots.add(("bound", g, t["name"]))
         for g, ps in m["generics"]:
             ent(("iface", g))["modprocs"] = [("proc", pn) for pn in ps]
         for x in m["extifs"]:
@@ -378,9 +400,17 @@ def declared(proj):
             local = {p["name"]} | {ip["name"] for ip in p["internals"]}
             pe["calls"] = [call_ref(c, local, home, pused) for c in p["calls"]] + \
                           [("bound", b, tn) for tn, b in p["obj_calls"]]
+            # an internal procedure is displayed when its host is, the host documents its internals
+            # (its own proc_internals metadata, else the project option) and the permission it inherits
+            # from the module's default accessibility is displayed
+            shown_ip = (("public" if p["public"] else "private") in display and eff_pi(p["meta"])
+                        and ("private" if m["private"] else "public") in display)
             for ip in p["internals"]:
-                ent(("proc", ip["name"]), ip.get("meta", []))["calls"] = \
-                    [call_ref(c, local, home, pused) for c in ip["calls"]]
+                ie = ent(("proc", ip["name"]), ip.get("meta", []))
+                ie["calls"] = [call_ref(c, local, home, pused) for c in ip["calls"]]
+                ie["visible"] = shown_ip
+                if shown_ip and "graph: false" not in p["meta"]:
+                    call_roots.add(("proc", ip["name"]))
     for s in subs.values():
         e = ent(("mod", s["name"]), s["meta"])
         e["uses"] = [mod_ref(x) for x in s["uses"]]
@@ -396,8 +426,15 @@ def declared(proj):
             e["uses"] = [mod_ref(x) for x in u["uses"]]
             local = {ip["name"] for ip in u["internals"]} | ({u["name"]} if u["kind"] == "extproc" else set())
             e["calls"] = [call_ref(c, local, None, set(u["uses"])) for c in u["calls"]]
+            # internal procedures of a program are always displayed (and registered themselves); those of
+            # an external procedure when it documents its internals
+            shown_ip = u["kind"] == "program" or eff_pi(u["meta"])
             for ip in u["internals"]:
-                ent(("proc", ip["name"]))["calls"] = [call_ref(c, local, None, set(u["uses"])) for c in ip["calls"]]
+                ie = ent(("proc", ip["name"]))
+                ie["calls"] = [call_ref(c, local, None, set(u["uses"])) for c in ip["calls"]]
+                ie["visible"] = shown_ip
+                if shown_ip and "graph: false" not in u["meta"]:
+                    call_roots.add(("proc", ip["name"]))
         elif u["kind"] == "blockdata":
             ent(("block", u["name"]), u["meta"])["uses"] = [mod_ref(x) for x in u["uses"]]
     # files
@@ -413,7 +450,7 @@ def declared(proj):
             for n in needs:
                 if n in unit_file:
                     fe["deps"].append(("file", unit_file[n]))
-    return rel, nograph
+    return rel, nograph, call_roots
 
 
 def hash_name(n):
